@@ -269,10 +269,10 @@ func (s *RecStore) RecordAttempt(a queue.DeliveryAttempt) error {
 type Script func(msg, target string, nth int) Behaviour
 
 type Deliverer struct {
-	rec    *RecStore
-	script Script
-	mu     sync.Mutex
-	count  map[string]int
+	rec      *RecStore
+	script   Script
+	mu       sync.Mutex
+	count    map[string]int
 	inflight int
 }
 
